@@ -298,6 +298,11 @@ func raceReports(out string) []Violation {
 				}
 				if top {
 					// the access itself: skip runtime helpers; if it is harness code the report is an artefact
+					if strings.HasPrefix(l, "internal/godebug.") {
+						// the standard library's own lazily initialised setting cache (first timer of the process): data
+						// the repository neither owns nor passes in
+						return ""
+					}
 					if strings.HasPrefix(l, "runtime.") || strings.HasPrefix(l, "sync.") || strings.HasPrefix(l, "sync/atomic.") || strings.HasPrefix(l, "internal/") {
 						continue
 					}
